@@ -9,7 +9,7 @@ from __future__ import annotations
 
 from lib import tlc
 from lib.core import Ctx
-from props import pipe_common
+from props import pipe_common, roundtrip
 
 
 def run(ctx: Ctx):
@@ -18,7 +18,9 @@ def run(ctx: Ctx):
                 "inputs with only unalignable queries -> zero records, and single-query inputs -> one record) is read "
                 "back with XmapReader(XmapAlignmentPairWithDistanceParser(refs, trimmed queries)); per record TLC "
                 "checks ids, orientation, HitEnum, pairs, truncated coordinates/lengths, 2-decimal confidence and "
-                "pair coordinates; per file the number and order of alignments. non-trivial = distinct file")
+                "pair coordinates; per file the number and order of alignments. In addition every (maps, matching, strand) "
+                "of the MC_Xmap record space (printed by TLC) is turned into a real AlignmentResultRow, written by the "
+                "real writer and read back (single-pair records, both strands). non-trivial = distinct file")
     ctx.assumptions = ["read-back uses the project's reader exactly as Program constructs it"]
     mc = tlc.run_tlc("MC_Xmap", "MC_Xmap.cfg", ctx.workdir, workers=6)
     ctx.add_model("MC_Xmap", mc)
@@ -29,7 +31,19 @@ def run(ctx: Ctx):
     # coordinates beyond 2^31 bp (reference-side values are handed to TLC rebased, see pipe_common.rebase_line)
     res += pipe_common.explore(ctx, 1 if quick else 4, n_qry=2, with_readback=True, salt=1802, kinds=["far"],
                                modes=["best", "separate"])
-    lines, out, r = pipe_common.validate_records(ctx, res, "C18")
+    # spec -> code: the record space of MC_Xmap through the real row constructor, writer and reader
+    rt = roundtrip.explore(ctx, stride=3 if quick else 1)
+    for k, x in enumerate(rt):
+        info = {k2: v for k2, v in x.items() if k2 != "lines"}
+        ctx.nontrivial(("roundtrip", k))
+        if x["readback"] != "ok":
+            ctx.violation(dict(info, file=k), ["reader_raised_" + x["readback"]], "", what=f"synthetic file {k}: {info}")
+        elif x["n_records"] != x["n_cases"] or x["malformed"] or x["readback_n"] != x["n_records"]:
+            ctx.violation(dict(info, file=k), ["one_alignment_per_record"], "", what=f"synthetic file {k}: {info}")
+    ctx.notes["record_space_roundtrip"] = {"files": len(rt), "records": sum(x["n_records"] for x in rt),
+                                           "source": "MC_Xmap / Export_Xmap.cfg (every matching on 4x4 labels, both "
+                                                     "strands, incl. single-pair records)"}
+    lines, out, r = pipe_common.validate_records(ctx, res + [{"lines": x["lines"]} for x in rt], "C18")
     nfiles = 0
     for rr in res:
         for mode, ms in rr["summary"]["modes"].items():
